@@ -79,7 +79,10 @@ type childOut struct {
 	// per operation index: keepTasks was asked and the environment was in a state from which
 	// DestroyEnvironment honours it (oracle bit for the model)
 	Keep map[int]bool `json:"keep,omitempty"`
-	Err  string       `json:"err,omitempty"`
+	// per "killrefused" operation index: the tasks whose KILL call was refused (the ACTIVE ones of the
+	// environment whose teardown was held) - read off the roster when the teardown started
+	Refused map[int][]int `json:"refused,omitempty"`
+	Err     string        `json:"err,omitempty"`
 }
 
 const fidKey = "o2/runtime/aliecs/mesos_fid"
@@ -165,6 +168,13 @@ type runner struct {
 	held        map[string]bool // tasks whose TASK_RUNNING is withheld
 	pendingDone chan struct{}   // closed when the held CreateEnvironment has returned
 	life        int
+	// a teardown whose Mesos KILL calls the master holds and then refuses ("killheld" .. "killrefused")
+	holdSet  map[string]bool
+	holdGate chan struct{}
+	holdHit  chan struct{}
+	holdDone chan struct{}
+	holdIdx  []int         // indices of the ACTIVE tasks of the held teardown
+	refused  map[int][]int // per operation index
 }
 
 const markerPrefix = "verif-marker-"
@@ -640,6 +650,55 @@ func (r *runner) apply(i int, op opJ) error {
 		}
 	case "cleanup":
 		_, _ = r.s.Rpc.CleanupTasks(bg, &pb.CleanupTasksRequest{})
+	case "killheld":
+		// teardown of environment E whose first KILL call the master holds: doKillTasks has taken the
+		// tasks out of the roster and sits in the call (connection trouble: the call hangs, then fails)
+		if id, ok := r.envOf(op.E); ok {
+			set := map[string]bool{}
+			var active []int
+			for _, t := range r.s.Taskman.VerifRoster() {
+				if t.EnvId == id.String() {
+					set[t.TaskId] = true
+					if t.Status == "ACTIVE" {
+						active = append(active, r.taskIdx[t.TaskId])
+					}
+				}
+			}
+			sort.Ints(active)
+			r.holdIdx = active
+			r.mu.Lock()
+			r.holdSet, r.holdGate, r.holdHit, r.holdDone = set, make(chan struct{}), make(chan struct{}, 8), make(chan struct{})
+			hit, done := r.holdHit, r.holdDone
+			delete(r.envs, op.E)
+			r.mu.Unlock()
+			go func() {
+				_, _ = r.s.Rpc.DestroyEnvironment(bg, &pb.DestroyEnvironmentRequest{Id: id.String(), AllowInRunningState: true})
+				close(done)
+			}()
+			select {
+			case <-hit:
+			case <-done:
+			case <-time.After(5 * time.Second):
+			}
+			r.settle()
+		}
+	case "killrefused":
+		// the held KILL calls (and the following ones for that environment) fail; the teardown returns
+		r.mu.Lock()
+		gate, done := r.holdGate, r.holdDone
+		r.holdGate = nil
+		r.mu.Unlock()
+		if gate != nil {
+			r.refused[i] = r.holdIdx
+			close(gate)
+			select {
+			case <-done:
+			case <-time.After(20 * time.Second):
+			}
+			r.mu.Lock()
+			r.holdSet, r.holdDone = nil, nil
+			r.mu.Unlock()
+		}
 	case "killids":
 		// KillTasks with a list: ids of live, dead, locked, already removed tasks and ids nobody knows
 		var ids []string
@@ -795,7 +854,7 @@ func runScript(in inputJ, workdir string) (out childOut) {
 	if !in.Failover {
 		fo = "0s"
 	}
-	r := &runner{rec: rec, taskIdx: map[string]int{}, envs: map[int]uid.ID{}, deaf: map[string]bool{}, started: map[int]bool{}, keepEff: map[int]bool{}, pendingRun: map[string]bool{}, held: map[string]bool{}}
+	r := &runner{rec: rec, taskIdx: map[string]int{}, envs: map[int]uid.ID{}, deaf: map[string]bool{}, started: map[int]bool{}, keepEff: map[int]bool{}, pendingRun: map[string]bool{}, held: map[string]bool{}, refused: map[int][]int{}}
 	simcore.ReconcileStaging = true
 	s, err := simcore.New(simcore.Options{
 		Plugins:     map[string]integration.NewFunc{"verif": vplugin.New(rec)},
@@ -855,6 +914,22 @@ func runScript(in inputJ, workdir string) (out childOut) {
 		}()
 		return "silent"
 	}
+	s.Beh.KillError = func(taskId string) error {
+		r.mu.Lock()
+		held, gate, hit := r.holdSet[taskId], r.holdGate, r.holdHit
+		r.mu.Unlock()
+		if !held {
+			return nil
+		}
+		if gate != nil {
+			select {
+			case hit <- struct{}{}:
+			default:
+			}
+			<-gate
+		}
+		return fmt.Errorf("verif: KILL refused for %s (connection lost)", taskId)
+	}
 	s.Beh.Kill = func(taskId string) bool {
 		r.mu.Lock()
 		defer r.mu.Unlock()
@@ -863,6 +938,7 @@ func runScript(in inputJ, workdir string) (out childOut) {
 	// the first life has subscribed inside New
 	out.Obs = append(out.Obs, r.observe())
 	out.Keep = r.keepEff
+	out.Refused = r.refused
 	for i, op := range in.Ops {
 		if err := r.apply(i, op); err != nil {
 			out.Err = fmt.Sprintf("op %d (%s): %v", i, op.Op, err)
@@ -875,7 +951,7 @@ func runScript(in inputJ, workdir string) (out childOut) {
 
 // ---------------------------------------------------------------- Coq terms
 
-func opTerm(o opJ, keepEff bool) string {
+func opTerm(o opJ, keepEff bool, refused []int) string {
 	switch o.Op {
 	case "create":
 		return fmt.Sprintf("OCreate %d", o.K)
@@ -897,6 +973,10 @@ func opTerm(o opJ, keepEff bool) string {
 		return fmt.Sprintf("OMesosState %d %d", o.T, o.S)
 	case "cleanup":
 		return "OCleanup"
+	case "killheld":
+		return fmt.Sprintf("OKillHeld %d", o.E)
+	case "killrefused":
+		return "OKillRefused " + intList(refused)
 	case "killids":
 		if len(o.Ts) == 0 {
 			return "OStart 0"
@@ -957,7 +1037,7 @@ func caseTerm(in inputJ, out childOut) string {
 	obs := out.Obs
 	ops := make([]string, len(in.Ops))
 	for i, o := range in.Ops {
-		ops[i] = opTerm(o, out.Keep[i])
+		ops[i] = opTerm(o, out.Keep[i], out.Refused[i])
 	}
 	os_ := make([]string, len(obs))
 	for i, o := range obs {
@@ -981,6 +1061,12 @@ func corpus() []inputJ {
 	crl := func(p string, k int, lost string) opJ { return opJ{Op: "crash", P: p, K: k, Lost: lost} }
 	return []inputJ{
 		c(mk(1), op("reconnect")), // C18-a regression witness: the task must survive
+		// a teardown whose KILL calls hang and then fail while ANOTHER environment is deployed: what the
+		// deployment appended to the roster meanwhile must still be there (no lost update), the
+		// reconnection that follows spares it:
+		c(mk(2), opJ{Op: "killheld", E: 0}, mk(1), op("killrefused"), op("reconnect")),
+		c(mk(1), mk(2), opJ{Op: "killheld", E: 1}, mk(2), op("killrefused"), op("reconnect"), op("cleanup")),
+		c(mk(2), opJ{Op: "lost", T: 0}, opJ{Op: "killheld", E: 0}, mk(1), op("killrefused"), op("reconnect")),
 		// kill requests that name stale / dead / locked ids while another environment lives must leave the
 		// roster tasks of the live environments alone - and the next reconnection spares them:
 		c(mk(2), mk(1), opJ{Op: "destroy", E: 1}, opJ{Op: "killids", Ts: []int{2}}, op("reconnect")),                      // id of a task already killed and removed
@@ -1125,6 +1211,17 @@ func genScript(r *gen.Rand) inputJ {
 				t = r.Intn(tasks + 1)
 			}
 			in.Ops = append(in.Ops, opJ{Op: "die", T: t})
+		case envs >= 1 && x >= 97:
+			// a teardown whose KILL calls the master holds, a deployment meanwhile, the calls fail
+			in.Ops = append(in.Ops, opJ{Op: "killheld", E: pickEnv()})
+			k := r.Range(1, 3)
+			in.Ops = append(in.Ops, opJ{Op: "create", K: k})
+			envs++
+			tasks += k
+			in.Ops = append(in.Ops, op("killrefused"))
+			if r.Chance(3, 4) {
+				in.Ops = append(in.Ops, op("reconnect"))
+			}
 		case x < 56:
 			in.Ops = append(in.Ops, op("cleanup"))
 		case x < 57 || (envs >= 2 && x >= 92 && x < 97):
